@@ -236,9 +236,57 @@ class ThreeAddress(ast.NodeTransformer):
         return node
 
 
+class SwapBranches(ast.NodeTransformer):
+    """if c: A else: B  ->  if not c: B else: A   (statements and conditional expressions; elif chains are left alone)"""
+
+    def visit_If(self, node):
+        self.generic_visit(node)
+        if node.orelse and not (len(node.orelse) == 1 and isinstance(node.orelse[0], ast.If)):
+            node.test = ast.UnaryOp(op=ast.Not(), operand=node.test)
+            node.body, node.orelse = node.orelse, node.body
+        return node
+
+    def visit_IfExp(self, node):
+        self.generic_visit(node)
+        node.test = ast.UnaryOp(op=ast.Not(), operand=node.test)
+        node.body, node.orelse = node.orelse, node.body
+        return node
+
+
+class GuardClauses(ast.NodeTransformer):
+    """if c: ...; return X  else: REST   ->   if c: ...; return X \n REST   (an else after a branch that always leaves)"""
+
+    @staticmethod
+    def _leaves(stmts) -> bool:
+        return bool(stmts) and isinstance(stmts[-1], (ast.Return, ast.Raise, ast.Continue, ast.Break))
+
+    def _block(self, stmts):
+        out = []
+        for st in stmts:
+            st = self.visit(st)
+            if isinstance(st, ast.If) and st.orelse and self._leaves(st.body):
+                rest = st.orelse
+                st.orelse = []
+                out.append(st)
+                out.extend(rest)
+            else:
+                out.append(st)
+        return out
+
+    def generic_visit(self, node):
+        for fld in ("body", "orelse", "finalbody"):
+            sub = getattr(node, fld, None)
+            if isinstance(sub, list) and sub and isinstance(sub[0], ast.stmt):
+                setattr(node, fld, self._block(sub))
+        for h in getattr(node, "handlers", []) or []:
+            h.body = self._block(h.body)
+        return node
+
+
 def transform_module(src: str, kind: str) -> str:
     tree = ast.parse(src)
-    tr = {"commute": CommuteConst, "augassign": AugToAssign, "rettemp": ReturnTemp, "threeaddr": ThreeAddress}[kind]()
+    tr = {"commute": CommuteConst, "augassign": AugToAssign, "rettemp": ReturnTemp, "threeaddr": ThreeAddress,
+          "swapbranches": SwapBranches, "guardclause": GuardClauses}[kind]()
     tree = tr.visit(tree)
     ast.fix_missing_locations(tree)
     return ast.unparse(tree) + "\n"
@@ -253,7 +301,7 @@ def overlays(kind: str):
             new = ast.unparse(ast.parse(src)) + "\n"
         elif kind == "rename":
             new = rename_module(src)
-        elif kind in ("commute", "augassign", "rettemp", "threeaddr"):
+        elif kind in ("commute", "augassign", "rettemp", "threeaddr", "swapbranches", "guardclause"):
             new = transform_module(src, kind)
         else:
             new = rename_module(src)
@@ -336,11 +384,11 @@ def mutants_under(kinds, pids):
 def main():
     if "--mutants" in sys.argv:
         sys.argv.remove("--mutants")
-        ALL_ = ("reformat", "rename", "commute", "augassign", "rettemp", "threeaddr")
+        ALL_ = ("reformat", "rename", "commute", "augassign", "rettemp", "threeaddr", "swapbranches", "guardclause")
         kinds = [a for a in sys.argv[1:] if a in ALL_] or list(ALL_)
         pids = [a.upper() for a in sys.argv[1:] if a.upper().startswith("C") and a[1:].isdigit()] or [f"C{i:02d}" for i in range(1, 21)]
         return mutants_under(kinds, pids)
-    ALL = ("reformat", "rename", "commute", "augassign", "rettemp", "threeaddr")
+    ALL = ("reformat", "rename", "commute", "augassign", "rettemp", "threeaddr", "swapbranches", "guardclause")
     kinds = [a for a in sys.argv[1:] if a in ALL] or list(ALL)
     pids = [a for a in sys.argv[1:] if a.upper().startswith("C") and a[1:].isdigit()] or [f"C{i:02d}" for i in range(1, 21)]
     rc = 0
